@@ -12,7 +12,17 @@ RULE = ("kinds: mcmc (the real batchie.sampling.sample driving a counting stub M
         "length = n mostly), rng (key of the generator handed to the model and its first draws per (seed, n_chains, chain_index); also "
         "for a model object that already carries a generator, and for the second sample() call on one object), "
         "malformed (t<=0, b<0, n<=0, index out of range or negative, negative seed, None arguments, pre-filled or short holder, "
-        "non-model object).  Non-trivial: every case that issues at least one step or record; distinct by case description.")
+        "non-model object).  Non-trivial: every case that issues at least one step or record; distinct by case description.  "
+        "ADDED (gap review g5): real (every concrete MCMCModel class shipped in batchie.models - SparseDrugCombo, SparseDrugComboInteraction - "
+        "built on a small real Screen with observations added; sample() twice on ONE object; the call trace of the first run is compared with "
+        "the model's; predicates: steps taken = b + n*t, the thetas found in the holder AT THE END equal copies of get_model_state() taken "
+        "right after steps b+t, ..., b+n*t (recorded states are snapshots, not views of arrays the sampler keeps writing to), and RESETS THE "
+        "MODEL: every numeric / array attribute of the sampler object at the moment reset_model() has returned inside sample() equals its value "
+        "after construction + add_observations); rng with model=vi (clauses e / f of the generator on the VIModel stub, n_chains > 1, trace "
+        "compared with the model's VI branch); rng cases also compare the full bit_generator.state (128-bit state + increment) of the handed "
+        "generator with PCG64(SeedSequence(seed, spawn_key=(chain_index,))) and require pairwise different (state, inc) over all chains; "
+        "mcmc with model=mutable (stub whose state is one ndarray updated in place by step(), get_model_state returning a copy: stored values "
+        "read at the END of the run); a tenth of the mcmc cases run with progress_bar=True (tqdm wrapping the two ranges).")
 THEOREMS = {
     "C17_model_is_source": "the hand-written model sample equals, for all arguments, the Gallina translation of the whole function batchie.sampling.sample regenerated from /repo's current source on this run (Generated/SrcSampling.v)",
     "C17_trace": "for b>=0, t>=1, n>=0, valid key: trace = Reset, SetRng(seed,[chain_index]), b Steps, then n blocks of (t Steps, Record); final holder length n",
@@ -26,9 +36,20 @@ THEOREMS = {
     "C17_vi_once": "VI branch: Reset, SetRng(seed,[]), one SampleVI n, then n Records; holder complete",
     "C17_not_a_model_refused": "an object that is neither MCMCModel nor VIModel is refused",
     "C17_none_refused": "a None among n_chains, chain_index, n_burnin, thin is refused for MCMC models",
+    "C17_mcmc_chains_distinct_partial": "MCMC models, whole runs: two successful sample() runs with different chain indices below n_chains hand different SeedSequence keys to set_rng, whatever b, t, n and the holders are (PARTIAL: keys, not streams)",
+    "C17_vi_generator_ignores_chain": "VI models: sample() does not read n_chains / chain_index / n_burnin / thin at all - the whole run is the same for every value of them",
+    "C17_vi_handed_key": "VI models: the generator handed over is default_rng(seed), key (seed, [])",
+    "C17_vi_streams_distinct_refuted": "REFUTED, a finding: for a VI model the clause 'a different stream for every other chain index' fails inside the quantifier (seed 0, n_chains 2, indices 0 and 1): both runs hand the same key; replayed on the implementation by kind rng model=vi (KNOWN_FINDINGS vi-chains-share-generator)",
+    "C17_real_reset_is_source": "what 'resets the model' does on the real sampler: the Gallina translation of the whole method LegacySparseDrugComboImpl.reset_model, regenerated from /repo on this run, equals the model reset_st (W, W0, V2, V1, V0 zeroed, alpha 0, prec 100, Mu emptied; nothing else assigned)",
+    "C17_real_reset_restores_embeddings_partial": "PARTIAL: on a state with the shapes __init__ allocates, reset restores exactly the constructed W, W0, V2, V1, V0, alpha, prec, Mu",
+    "C17_real_reset_keeps_precisions": "the translated reset_model leaves tau, tau0, phi2, phi1, phi0, eta2, eta1, eta0, gam and num_mcmc_steps at the values the previous chain left",
+    "C17_real_reset_restores_iff": "the reset state equals the constructed state iff those nine precisions already have their initial values",
+    "C17_real_reset_restores_refuted": "REFUTED, a finding: 'reset_model restores the constructed parameter state' - a well-shaped state whose reset differs from init_st; on the real objects by kind real (KNOWN_FINDINGS reset-model-keeps-hyperparameters)",
     "C17_negative_index_aliases": "observation: chain_index = -1 is accepted and aliases chain n_chains-1 (python negative indexing); outside the property's quantifier",
 }
 ASSUMPTIONS = [
+    "which b, t, n, seed, n_chains, chain_index reach sample() in the deployed pipeline is C04's CLI link (Cli.cli_train_model) and the nextflow modules, not restated here; batchie.py passes the same --seed at every retraining iteration (outside the statement)",
+    "the snapshot of the recorded state is the model's duty (get_model_state copies); sample() stores what it is given - observed on the real models by kind real",
     "numpy: SeedSequence(seed).spawn(n)[i] is the SeedSequence with entropy=seed, spawn_key=(i,) (checked on every case through rng.bit_generator.seed_seq), and a Generator's stream is a function of that key (checked on first draws)",
     "non-overlap of PCG64 streams for distinct spawn keys is numpy's documented guarantee; not provable in the model",
     "the model object only sees reset_model/set_rng/step/get_model_state/sample calls; the holder only add_theta/n_thetas",
@@ -40,7 +61,12 @@ EXPLANATION = ("Tie to the code, two ways: (1) the whole function sample is re-t
                "trange(n) = range(n)); (2) the differential correspondence below, which exercises exactly those primitives on the "
                "real objects.  Model: Model/Sampling.v (counter machine emitting the call trace; burn-in loop, thinning loop with (step_index+1) % thin, "
                "ThetaHolder capacity check, VI branch, the match on the model class, None-argument checks).  Partial: stream non-overlap "
-               "(numpy).  Not modelled: logging, tqdm.")
+               "(numpy).  Not modelled: logging, tqdm.  'Resets the model' is, in the model, the event Reset (reset_model() is called first); what "
+               "reset_model DOES on the real sampler is tied to the source by C17_real_reset_is_source (translation of LegacySparseDrugComboImpl.reset_model) and "
+               "observed by kind real: it restores the embeddings W, W0, V2, V1, V0, alpha, prec and the cache Mu and KEEPS the horseshoe / gamma-process "
+               "precisions phi*, eta*, tau, tau0, gam and the step counter (C17_real_reset_keeps_precisions, C17_real_reset_restores_refuted; KNOWN_FINDINGS "
+               "reset-model-keeps-hyperparameters).  VI models get default_rng(seed) whatever n_chains / chain_index are (C17_vi_generator_ignores_chain, "
+               "C17_vi_streams_distinct_refuted; KNOWN_FINDINGS vi-chains-share-generator).")
 
 
 class _Other:
@@ -76,6 +102,26 @@ def _stubs():
             self.states.append(self.steps)
             return ("theta", self.steps)
 
+    class Snap:
+        """what the mutable stub hands out: a COPY of its live array (the copy is the model's duty, as in the real get_model_state)"""
+        def __init__(self, arr):
+            self.arr = arr
+
+    class Mm(M):
+        """state = one ndarray written IN PLACE by every step, as the Gibbs blocks do"""
+        def __init__(self):
+            M.__init__(self)
+            self.live = np.zeros(3)
+
+        def step(self):
+            M.step(self)
+            self.live += 1.0
+            self.live[1] = self.steps * 10.0
+
+        def get_model_state(self):
+            self.states.append(self.steps)
+            return Snap(self.live.copy())
+
     class V(Common, VIModel):
         def sample(self, num_samples):
             self.sample_calls.append(num_samples)
@@ -96,7 +142,7 @@ def _stubs():
             super().add_theta(theta)
             self.events.append([3])
 
-    return M, V, Both, Holder
+    return M, V, Both, Holder, Mm
 
 
 def gen(rng, tier):
@@ -109,15 +155,32 @@ def gen(rng, tier):
                 yield dict(kind="mcmc", model="mcmc", seed=rng.randrange(1 << 32), nc=nc, ci=rng.randrange(nc), b=b, t=t, n=n, len0=0)
     for _ in range(120 if not big else 1500):
         nc = rng.randint(1, 40)
-        yield dict(kind="mcmc", model=rng.choice(["mcmc", "mcmc", "mcmc", "both"]), seed=rng.choice([0, 1, rng.randrange(1 << 16), rng.randrange(1 << 80)]),
-                   nc=nc, ci=rng.randrange(nc), b=rng.choice([0, 0, 1, rng.randint(0, 60)]), t=rng.choice([1, 1, 2, rng.randint(1, 12)]),
-                   n=rng.randint(1, 25), len0=0)
+        d = dict(kind="mcmc", model=rng.choice(["mcmc", "mcmc", "mutable", "both"]), seed=rng.choice([0, 1, rng.randrange(1 << 16), rng.randrange(1 << 80)]),
+                 nc=nc, ci=rng.randrange(nc), b=rng.choice([0, 0, 1, rng.randint(0, 60)]), t=rng.choice([1, 1, 2, rng.randint(1, 12)]),
+                 n=rng.randint(1, 25), len0=0)
+        if rng.random() < 0.1:
+            d["bar"] = True
+        yield d
     for _ in range(60 if not big else 600):
         n = rng.randint(1, 30)
         yield dict(kind="vi", seed=rng.choice([0, rng.randrange(1 << 40)]), n=n, returned=n, len0=0)
     for _ in range(120 if not big else 1200):
         nc = rng.randint(1, 12)
         yield dict(kind="rng", seed=rng.choice([0, 1, 2, rng.randrange(1 << 20), rng.randrange(1 << 64)]), nc=nc, ci=rng.randrange(nc))
+    # the generator clauses on a variational model (the statement's quantifier does not exempt them)
+    for i in range(24 if not big else 300):
+        nc = rng.randint(1, 12) if i else 1
+        yield dict(kind="rng", model="vi", seed=rng.choice([0, 1, rng.randrange(1 << 20), rng.randrange(1 << 64)]), nc=nc, ci=rng.randrange(nc), n=rng.randint(1, 4))
+    if big:
+        for _ in range(60):
+            nc = rng.randint(13, 40)
+            yield dict(kind="rng", seed=rng.randrange(1 << 64), nc=nc, ci=rng.randrange(nc))
+    # the real samplers: schedule, snapshots, and what reset_model restores
+    for i in range(16 if not big else 240):
+        nc = rng.randint(1, 4)
+        yield dict(kind="real", model=REAL_MODELS[i % len(REAL_MODELS)], dim=rng.choice([1, 2, 3]), rows=rng.choice([0, 1, 3, 6, 9]), dseed=rng.randrange(1 << 30),
+                   seed=rng.randrange(1 << 32), nc=nc, ci=rng.randrange(nc), b=rng.choice([0, 1, 2, 4]), t=rng.choice([1, 2, 3]), n=rng.randint(1, 4),
+                   again=rng.choice([True, True, False]))
     # malformed / outside the quantifier
     for _ in range(140 if not big else 1200):
         nc = rng.randint(1, 5)
@@ -162,6 +225,179 @@ def gen(rng, tier):
         yield dict(kind="vi", seed=rng.choice([0, 5, -1]), n=n, returned=rng.choice([n, n, max(0, n - 1), n + 1, 0]), len0=rng.choice([0, 0, 1]), malformed=True)
 
 
+REAL_MODELS = ["SparseDrugCombo", "SparseDrugComboInteraction"]
+# attributes reset_model is KNOWN not to restore (KNOWN_FINDINGS reset-model-keeps-hyperparameters); anything else is a new failure
+KNOWN_KEPT = {"phi2", "phi1", "phi0", "eta2", "eta1", "eta0", "tau", "tau0", "gam", "num_mcmc_steps"}
+
+
+class _quiet_stderr:
+    """tqdm draws its bar on stderr"""
+    def __init__(self, on):
+        self.on = on
+
+    def __enter__(self):
+        import io
+        import sys
+        if self.on:
+            self.old, sys.stderr = sys.stderr, io.StringIO()
+
+    def __exit__(self, *a):
+        import sys
+        if self.on:
+            sys.stderr = self.old
+
+
+def _real_class(name):
+    if name == "SparseDrugCombo":
+        from batchie.models.sparse_combo import SparseDrugCombo as C
+    else:
+        from batchie.models.sparse_combo_interaction import SparseDrugComboInteraction as C
+    return C
+
+
+def _real_screen(rows, dseed):
+    from batchie.data import Screen
+    g = np.random.default_rng(dseed)
+    names = ["a", "b", "c", "control"]
+    n = max(rows, 1)
+    tn = np.array([[names[int(g.integers(0, 3))], names[int(g.integers(0, 4))]] for _ in range(n)], dtype=str)
+    return Screen(observations=g.uniform(0.05, 0.95, n), observation_mask=np.array([rows > 0] * n, dtype=bool),
+                  sample_names=np.array(["s%d" % int(g.integers(0, 3)) for _ in range(n)], dtype=str),
+                  plate_names=np.array(["p%d" % (i % 2) for i in range(n)], dtype=str),
+                  treatment_names=tn, treatment_doses=np.array([[1.0, float(1 + int(g.integers(0, 2)))] for _ in range(n)]),
+                  control_treatment_name="control")
+
+
+def _numeric_state(obj, keys=None):
+    import copy
+    out = {}
+    for k_, v in vars(obj).items():
+        if keys is not None and k_ not in keys:
+            continue
+        if isinstance(v, (np.ndarray, float, int, np.floating, np.integer)) and not isinstance(v, bool):
+            out[k_] = copy.deepcopy(v)
+    return out
+
+
+def _theta_values(theta):
+    return {k_: np.array(v, copy=True) for k_, v in theta.private_parameters_dict().items() if not isinstance(v, dict)}
+
+
+def _same(a, b):
+    return set(a) == set(b) and all(np.array_equal(np.asarray(a[k_]), np.asarray(b[k_]), equal_nan=True) for k_ in a)
+
+
+def run_real(desc):
+    """the real MCMC models under the real sample(): trace, step count, snapshots, and what 'resets the model' restores"""
+    import batchie.sampling
+    from batchie.core import ThetaHolder
+    from batchie.data import ExperimentSpace
+
+    seed, nc, ci, b, t, n = (desc[x] for x in ("seed", "nc", "ci", "b", "t", "n"))
+    sc = _real_screen(desc["rows"], desc["dseed"])
+    saved = np.random.get_state()
+    np.random.seed(desc["dseed"] % (1 << 32))      # the Gibbs blocks draw from the global generator (C18's known finding): make the case replayable
+    try:
+        m = _real_class(desc["model"])(experiment_space=ExperimentSpace.from_screen(sc), n_embedding_dimensions=desc["dim"])
+        ob = sc.subset_observed()
+        if ob is not None:
+            m.add_observations(ob)
+        inner = getattr(m, "wrapped_model", m)
+        s0 = _numeric_state(inner)
+        events, after_reset, taken, steps = [], [], {}, [0]
+        o_reset, o_set, o_step = m.reset_model, m.set_rng, m.step
+
+        def reset_model():
+            o_reset()
+            events.append([0])
+            after_reset.append(_numeric_state(inner, s0.keys()))
+
+        def set_rng(g):
+            o_set(g)
+            ss = g.bit_generator.seed_seq
+            events.append([1, int(ss.entropy), [int(x) for x in ss.spawn_key]])
+
+        def step():
+            o_step()
+            steps[0] += 1
+            events.append([2])
+            taken[steps[0]] = _theta_values(m.get_model_state())
+
+        m.reset_model, m.set_rng, m.step = reset_model, set_rng, step
+
+        class H(ThetaHolder):
+            def add_theta(self, theta):
+                super().add_theta(theta)
+                events.append([3])
+
+        def one():
+            steps[0] = 0
+            taken.clear()
+            h = H(n)
+            batchie.sampling.sample(model=m, results=h, seed=seed, n_chains=nc, chain_index=ci, n_burnin=b, thin=t)
+            if steps[0] != b + n * t:
+                return h, "real model advanced %d steps instead of b + n*t = %d" % (steps[0], b + n * t)
+            if len(h.thetas) != n or not h.is_complete:
+                return h, "collection not complete"
+            for i, th in enumerate(h.thetas):      # read at the END of the run
+                if not _same(_theta_values(th), taken[b + (i + 1) * t]):
+                    return h, "stored state %d is not the state the model had after step b+%d*t = %d (not a snapshot, or recorded at another step)" % (i, i + 1, b + (i + 1) * t)
+            return h, None
+
+        pred, sig = None, None
+        first = {}
+
+        def go():
+            h, p1 = one()
+            first["pred"] = p1
+            return [list(events), len(h.thetas)]
+
+        out = impl_call(go)
+        if isinstance(out, ImplError):
+            pred = "sampling a real model raised %r" % (out,)
+        else:
+            pred = first["pred"]
+            if pred is None and not _same(after_reset[0], s0):
+                pred = "first sample() on a fresh object does not start from the constructed state"
+            if pred is None and desc.get("again"):
+                _h, p2 = one()
+                pred = p2 and "second sample() on the same object: " + p2
+                if pred is None:
+                    kept = sorted(k_ for k_ in s0 if not np.array_equal(np.asarray(s0[k_]), np.asarray(after_reset[1][k_]), equal_nan=True))
+                    if kept:
+                        pred = ("sampling does not reset the model: after reset_model() inside the second sample() on one %s object, %s still differ "
+                                "from their values after construction + add_observations" % (desc["model"], ", ".join(kept)))
+                        sig = "reset-model-keeps-hyperparameters" if set(kept) <= KNOWN_KEPT else "reset-model-keeps:" + ",".join(k_ for k_ in kept if k_ not in KNOWN_KEPT)
+    finally:
+        np.random.set_state(saved)
+    feats = ["real", desc["model"], "rows=%d" % desc["rows"]] + (["same-object-twice"] if desc.get("again") else []) + (["b=0"] if b == 0 else []) + (["t=1"] if t == 1 else [])
+    return dict(wire=[0, 0, seed, [nc], [ci], [b], [t], n, 0, 0], impl=out, pred=pred, features=feats, cmp=cmp_result(), sig=sig)
+
+
+def signature(desc, res):
+    return res.get("sig")
+
+
+def extra(tier):
+    """every concrete MCMCModel class of batchie.models is one kind `real` runs (read from the source text, nothing imported)"""
+    import ast
+    import os
+    found = set()
+    d = os.path.join(common.REPO, "src", "batchie", "models")
+    for fn in sorted(os.listdir(d)):
+        if fn.endswith(".py") and not fn.endswith("_test.py"):
+            for node in ast.walk(ast.parse(open(os.path.join(d, fn)).read())):
+                if isinstance(node, ast.ClassDef) and any((isinstance(x, ast.Name) and x.id == "MCMCModel") or (isinstance(x, ast.Attribute) and x.attr == "MCMCModel") for x in node.bases):
+                    found.add(node.name)
+    ok = found == set(REAL_MODELS)
+    return [("real-mcmc-models-covered", ok, "MCMCModel classes in batchie/models: %s; run by kind real: %s" % (sorted(found), REAL_MODELS))]
+
+
+def _pcg_state(g):
+    st = g.bit_generator.state
+    return (st["bit_generator"], int(st["state"]["state"]), int(st["state"]["inc"]))
+
+
 def _first_draws(g):
     return [int(x) for x in g.integers(0, 1 << 62, size=4)] + [float(g.standard_normal())]
 
@@ -169,8 +405,45 @@ def _first_draws(g):
 def run(desc):
     import batchie.sampling
 
-    M, V, Both, Holder = _stubs()
+    M, V, Both, Holder, Mm = _stubs()
     kind = desc["kind"]
+
+    if kind == "real":
+        return run_real(desc)
+
+    if kind == "rng" and desc.get("model") == "vi":
+        # clauses e / f for a variational model: the generator handed to it, per (seed, n_chains, chain_index)
+        seed, nc, ci, n = desc["seed"], desc["nc"], desc["ci"], desc["n"]
+
+        def handed_vi(seed_, nc_, ci_):
+            m = V(returned=n)
+            h = Holder(n, m.events)
+            batchie.sampling.sample(model=m, results=h, seed=seed_, n_chains=nc_, chain_index=ci_, n_burnin=0, thin=1)
+            return m, h, dict(m.rng.bit_generator.state["state"])
+
+        def go():
+            m, h, st = handed_vi(seed, nc, ci)
+            return m, [list(m.events), len(h.thetas)], st
+
+        res = impl_call(go)
+        pred, sig = None, None
+        if isinstance(res, ImplError):
+            out = res
+            pred = "VI sampling raised %r" % (res,)
+        else:
+            m, out, st = res
+            if handed_vi(seed, nc, ci)[2] != st:
+                pred = "two runs with the same (seed, n_chains, chain_index) hand different streams to the VI model"
+            elif handed_vi(seed + 1, nc, ci)[2] == st:
+                pred = "the VI model's stream does not depend on the seed"
+            else:
+                same = [cj for cj in range(nc) if cj != ci and handed_vi(seed, nc, cj)[2] == st]
+                if same:
+                    pred = ("chains %d and %d of seed %d (n_chains %d) hand the VI model the SAME stream (full PCG64 state and increment equal): "
+                            "not a different, non-overlapping stream for every other chain index" % (ci, same[0], seed, nc))
+                    sig = "vi-chains-share-generator"
+        return dict(wire=[0, 1, seed, [nc], [ci], [0], [1], n, 0, n], impl=out, pred=pred, sig=sig,
+                    features=["rng", "vi", "n_chains=1" if nc == 1 else "n_chains>1"], cmp=cmp_result())
 
     if kind == "rng":
         seed, nc, ci = desc["seed"], desc["nc"], desc["ci"]
@@ -180,10 +453,14 @@ def run(desc):
             h = Holder(1, m.events)
             batchie.sampling.sample(model=m, results=h, seed=seed, n_chains=nc_, chain_index=ci_, n_burnin=0, thin=1)
             ss = m.rng.bit_generator.seed_seq
+            states.append((nc_, ci_, _pcg_state(m.rng)))
             return [int(ss.entropy), [int(x) for x in ss.spawn_key]], _first_draws(m.rng)
 
+        states = []
         key, draws = handed(nc, ci)
         pred = None
+        if states[0][2] != _pcg_state(np.random.Generator(np.random.PCG64(np.random.SeedSequence(seed, spawn_key=(ci,))))):
+            pred = "the handed generator's full state (128-bit state, increment) is not that of PCG64(SeedSequence(seed, spawn_key=(chain_index,)))"
         if key != [seed, [ci]]:
             pred = "generator key is %r, not (seed, [chain_index])" % (key,)
         if handed(nc, ci)[1] != draws:
@@ -200,6 +477,14 @@ def run(desc):
                 if dj in seen:
                     pred = "chains %d and %d of seed %d start with the same draws" % (seen[dj], cj, seed)
                 seen[dj] = cj
+        per_chain = {}
+        for nc_, ci_, st in states:
+            if nc_ == nc:
+                per_chain.setdefault(st, set()).add(ci_)
+        if any(len(v) > 1 for v in per_chain.values()):
+            pred = "two chain indices of seed %d get the same PCG64 (state, increment): %r" % (seed, [sorted(v) for v in per_chain.values() if len(v) > 1][0])
+        if len({st[1] for st in per_chain}) != len(per_chain):
+            pred = "two chains of seed %d run on the same PCG64 increment (the same underlying sequence)" % seed
         if tuple(handed(nc, ci)[1]) == tuple(_first_draws(np.random.default_rng(np.random.SeedSequence(seed + 1, spawn_key=(ci,))))):
             pred = "stream does not depend on the seed"
         # the generator depends ONLY on the triple: not on a generator the model object already carries (constructed with
@@ -247,14 +532,15 @@ def run(desc):
     # mcmc
     seed, nc, ci, b, t, n, len0 = (desc[x] for x in ("seed", "nc", "ci", "b", "t", "n", "len0"))
     mk = desc["model"]
-    m = {"mcmc": M, "both": Both}.get(mk, lambda: None)()
+    m = {"mcmc": M, "both": Both, "mutable": Mm}.get(mk, lambda: None)()
     events = m.events if m is not None else []
     h = Holder(n, events)
     h.thetas = [("pre", i) for i in range(len0)]
     obj = m if m is not None else _Other()
 
     def go():
-        r = batchie.sampling.sample(model=obj, results=h, seed=seed, n_chains=nc, chain_index=ci, n_burnin=b, thin=t, progress_bar=False)
+        with _quiet_stderr(desc.get("bar")):
+            r = batchie.sampling.sample(model=obj, results=h, seed=seed, n_chains=nc, chain_index=ci, n_burnin=b, thin=t, progress_bar=bool(desc.get("bar")))
         assert r is h
         return [list(events), len(h.thetas)]
 
@@ -267,7 +553,8 @@ def run(desc):
         else:
             ev = out[0]
             steps = sum(1 for e in ev if e == [2])
-            marks = [th[1] for th in h.thetas]
+            # read at the END of the run: for the mutable stub the stored arrays, all written in place while sampling went on
+            marks = [int(round(float(th.arr[0]))) if mk == "mutable" else th[1] for th in h.thetas]
             if ev[:2] != [[0], [1, seed, [ci]]]:
                 pred = "trace does not start with reset, set_rng(SeedSequence(seed).spawn(n_chains)[chain_index]): %r" % (ev[:2],)
             elif any(e[0] not in (2, 3) for e in ev[2:]):
@@ -278,6 +565,8 @@ def run(desc):
                 pred = "states recorded after steps %r, not after b+t, ..., b+n*t" % (marks[:8],)
             elif m.states != marks:
                 pred = "get_model_state called at steps %r but stored %r" % (m.states[:8], marks[:8])
+            elif mk == "mutable" and any(list(th.arr) != [float(s_), s_ * 10.0, float(s_)] for th, s_ in zip(h.thetas, marks)):
+                pred = "a stored state is not the state the model had when it was recorded"
             elif not h.is_complete:
                 pred = "collection not complete"
     wire = [0, 0 if m is not None else 2, seed] + [[] if v is None else [v] for v in (nc, ci, b, t)] + [n, len0, 0]
@@ -289,6 +578,8 @@ def run(desc):
         feats += ["b=0"] if b == 0 else []
         feats += ["n=1"] if n == 1 else []
         feats += ["both-classes"] if mk == "both" else []
+        feats += ["mutable-state"] if mk == "mutable" else []
+        feats += ["progress-bar"] if desc.get("bar") else []
     if isinstance(out, ImplError):
         feats.append("refused")
     elif len(out[0]) <= 2:
